@@ -26,6 +26,12 @@ class AccessMixin:
             outs += self.getattr_(s, v, self.mangle(e.attr, module), module)
         return outs
 
+    def note_heap_read(self, st, attr):
+        """an attribute read through the heap arrays after summarised loops: a summary leaves the attribute arrays as they were before the
+        loop, which is only right if the loop does not store that attribute -- recorded here, checked in verify.py (loop frame guard)"""
+        for ln in st.ghost.get('$loops', ()):
+            self.post_loop_reads.add((ln, attr))
+
     def mangle(self, attr, module):
         if attr.startswith('__') and not attr.endswith('__') and self.cur_class:
             return '_%s%s' % (self.cur_class.lstrip('_'), attr)
@@ -115,12 +121,14 @@ class AccessMixin:
                     res = []
                     for s2, flag in self.split(st, present):
                         if flag:
+                            self.note_heap_read(s2, attr)
                             val = s2.attr_arr(attr)[v.v]
                             s2.add(Z.birth(z3.Const('at0_' + attr, Z.ArrRR)[v.v]) < z3.Int('clock0'))
                             res.append(('ok', s2, self.unbox(s2, val, tag)))
                         else:
                             res += self.raise_builtin(s2, 'AttributeError', [sv_str(attr)])
                     return res
+                self.note_heap_read(st, attr)
                 val = st.attr_arr(attr)[v.v]
                 # the initial heap only references objects that existed before this execution started
                 st.add(Z.birth(z3.Const('at0_' + attr, Z.ArrRR)[v.v]) < z3.Int('clock0'))
